@@ -293,11 +293,18 @@ inductive Refusal where
   | noStart
   deriving Repr, DecidableEq
 
-def sortUndefined (u : List (Nat × String)) : List (Nat × String) :=
-  (u.toArray.qsort (fun a b => a.1 < b.1 || (a.1 == b.1 && a.2 < b.2))).toList
+/-- the recorded jump targets that are still undefined at the end, and among them the one with the
+    smallest source position (the driver sorts the set before reporting; positions are unique per jump) -/
+def stillUndefined (st : Asm.St) : List (Nat × String) :=
+  st.undefined.filter fun p => (st.labels.lookup p.2).isNone
+
+def firstUndefined (st : Asm.St) : Option (Nat × String) :=
+  match ((stillUndefined st).map (·.1)).min? with
+  | none => none
+  | some p => (stillUndefined st).find? (·.1 == p)
 
 def preflight (st : Asm.St) : Except Refusal Nat :=
-  match (sortUndefined st.undefined).find? (fun (_, l) => (st.labels.lookup l).isNone) with
+  match firstUndefined st with
   | some (pos, l) => .error (.undefinedLabel pos l)
   | none =>
     match st.labels.lookup "start" with
